@@ -1584,6 +1584,39 @@ pub fn write_fuzz_seeds(dir: &Path) {
     for (i, c) in CONFIG_SEEDS.iter().enumerate() {
         std::fs::write(d_cfg.join(format!("cfg{i}.yaml")), c).unwrap();
     }
+    write_json_seeds(dir);
+}
+
+/// starting corpus of the `json_schema` target: introspection results of generated models
+pub fn write_json_seeds(dir: &Path) {
+    use crate::introspect::{introspect, IntrospectOpts};
+    let d = dir.join("json_schema");
+    let _ = std::fs::remove_dir_all(&d);
+    std::fs::create_dir_all(&d).unwrap();
+    for i in 0..8u64 {
+        let mut x = i.wrapping_mul(0x9E37_79B9_7F4A_7C15).wrapping_add(77);
+        let data: Vec<u16> = (0..1500)
+            .map(|_| {
+                x = x.wrapping_mul(6364136223846793005).wrapping_add(1442695040888963407);
+                (x >> 40) as u16
+            })
+            .collect();
+        let mut ch = Choices::new(data);
+        let mut so = SchemaGenOpts::default();
+        so.max_objects = 2;
+        let gs = gen_schema(&mut ch, &so);
+        let io = IntrospectOpts { meta_types: false, absent_optionals: i % 2 == 0, shuffle: false };
+        let js = introspect(&gs.schema, &io, None);
+        if js.len() <= 8000 {
+            std::fs::write(d.join(format!("s{i:02}.json")), js).unwrap();
+        }
+    }
+    // a hand-written minimal one
+    std::fs::write(
+        d.join("min.json"),
+        r#"{"__schema":{"queryType":{"name":"Query"},"mutationType":null,"subscriptionType":null,"directives":[],"types":[{"kind":"OBJECT","name":"Query","description":null,"fields":[{"name":"a","description":null,"args":[{"name":"x","description":null,"type":{"kind":"SCALAR","name":"String","ofType":null},"defaultValue":"\"d\""}],"type":{"kind":"LIST","name":null,"ofType":{"kind":"SCALAR","name":"String","ofType":null}},"isDeprecated":false,"deprecationReason":null}],"inputFields":null,"interfaces":[],"enumValues":null,"possibleTypes":null},{"kind":"SCALAR","name":"String","description":null,"fields":null,"inputFields":null,"interfaces":null,"enumValues":null,"possibleTypes":null}]}}"#,
+    )
+    .unwrap();
 }
 
 // ---------------------------------------------------------------------------
